@@ -433,7 +433,7 @@ def conc_run(prop, harness_bin, flavor, gen, seed, tier, tag):
         path = None
         if c and written.get(pr, 0) < 2:
             written[pr] = written.get(pr, 0) + 1
-            path = write_replay(pr if pr != prop else prop, f"oracle-{tag}-case{cnum}", lines[c[0]:c[1]],
+            path = write_replay(prop, f"oracle-{tag}-case{cnum}", lines[c[0]:c[1]],
                                 ["implementation-side oracle failure (flavor %s)" % flavor, "execution: " + describe(c)]
                                 + [f"{pr}: {w}" for (_, w) in items[:5]])
         res["oracle"].append({"case": cnum, "prop": pr, "what": items[0][1], "line": items[0][0], "n": len(items), "replay": path})
